@@ -47,6 +47,9 @@ def confirm(rec, families):
         if asan["status"] in ("sanitizer", "crash", "timeout"):
             out["confirmed"] = True
             out["where"].append("c-asan:" + "+".join(fns))
+        elif asan["status"] == "compile-error":
+            out["confirmed"] = True
+            out["where"].append("emitted C does not compile:" + "+".join(fns))
         elif asan["status"] == "ok":
             outputs_c.append(asan["output"])
             o = dict(asan["output"])
@@ -133,13 +136,21 @@ def confirm_c16(rec, families):
                                    for i, old in zip(lists[comp.target], d2["output_dimensions"])]
         return d2
 
+    def min_dim(c):
+        """Smallest size of class c that still contains every stored coordinate."""
+        need = 0
+        for name, t in dec["inputs"].items():
+            fmt = comp.formats[name]
+            for l, lv in enumerate(t["indices"]):
+                if lv and cls[lists[name][fmt.ordering[l]]] == c and lv[1]:
+                    need = max(need, max(lv[1]) + 1)
+        return need
+
     for c in classes:
-        d0 = dec["dimvals"][c]
-        base = replay.concrete_ir_run(comp, ["evaluate"], dec, max_loop_iter=10**6)
-        d_big = detail.get("D2") if detail.get("class") == c and detail.get("D2") else None
-        if d_big is None or d_big > d0 + 1000:
-            d_big = min(max(d0, 1) * 100, d0 + 1000)
-        big = replay.concrete_ir_run(comp, ["evaluate"], scaled(c, d_big), max_loop_iter=10**6)
+        d0 = min(dec["dimvals"][c], max(min_dim(c), 1) + 3)
+        base = replay.concrete_ir_run(comp, ["evaluate"], scaled(c, d0), max_loop_iter=20000)
+        d_big = d0 + 1000
+        big = replay.concrete_ir_run(comp, ["evaluate"], scaled(c, d_big), max_loop_iter=20000)
         run = {"class": c, "D": d0, "D2": d_big,
                "iterations": [base.get("loop_iterations"), big.get("loop_iterations")],
                "statements": [base.get("statements"), big.get("statements")],
